@@ -7,7 +7,7 @@ from ..model import AnalysisError, norm, short
 from ..report import Finding, RuleResult
 from ..taint import HASH, LABEL, ORDER, UNSUM, TaintInterp, kinds, only, tt, vt
 from . import rule
-from .common import all_public_closure, assigned_names, closure, entry, own_walk, params_of, sites
+from .common import names_in, all_public_closure, assigned_names, closure, entry, own_walk, params_of, sites
 
 BAD_CANON = (LABEL, ORDER, HASH)
 BAD_SERIAL = (ORDER, HASH)
@@ -316,28 +316,81 @@ def r_flow_parse(ctx) -> RuleResult:
     if bond_field is None or attr_field is None:
         raise AnalysisError("R-FLOW-PARSE: listener no longer keeps bonds / node attributes in fields named so")
     # ---- bonds: appended as pairs; read only by (a) plain iteration that validates, (b) comprehension producing dict keys / a set
-    for n, m in uses[bond_field]:
+    unclassified = []
+
+    def loop_is_setlike(loop: ast.For, var_names: set):
+        """True: the loop only validates / does keyed stores by its own variable; False: it builds something positional
+        or counts; None: cannot tell"""
+        verdict = True
+        for s_ in ast.walk(ast.Module(loop.body, [])):
+            if isinstance(s_, ast.Call) and isinstance(s_.func, ast.Attribute) and s_.func.attr in ("append", "extend", "insert", "appendleft"):
+                return False
+            if isinstance(s_, ast.AugAssign):
+                return False
+            if isinstance(s_, ast.Call) and isinstance(s_.func, ast.Name) and s_.func.id == "enumerate":
+                return False
+        for s_ in loop.body:
+            if isinstance(s_, ast.Expr) and isinstance(s_.value, ast.Call):
+                continue
+            if isinstance(s_, (ast.Pass, ast.Continue)):
+                continue
+            if isinstance(s_, ast.Assign) and len(s_.targets) == 1 and isinstance(s_.targets[0], ast.Subscript) and names_in(s_.targets[0].slice) <= var_names \
+                    and names_in(s_.targets[0].slice):
+                continue        # keyed by the element itself
+            if isinstance(s_, ast.If) and all(isinstance(z, (ast.Raise, ast.Continue, ast.Pass)) for z in s_.body) and not s_.orelse:
+                continue
+            if isinstance(s_, ast.For) and isinstance(s_.iter, ast.Name) and s_.iter.id in var_names and isinstance(s_.target, ast.Name):
+                sub = loop_is_setlike(s_, {s_.target.id})
+                if sub is not True:
+                    return sub
+                continue
+            verdict = None
+        return verdict
+
+    def classify_bond_use(n, m, depth=0):
+        """(ok: True / False / None, why) for the expression n (the field or something wrapping it)"""
         p, _ = parents[id(n)]
-        ok, why = False, ""
         if isinstance(p, ast.Attribute) and p.attr in ("append", "add"):
-            ok, why = True, "collected"
-        elif isinstance(p, ast.For) and p.iter is n:
-            # body must not build anything positional: only validation calls
-            body_ok = all(isinstance(s, ast.Expr) and isinstance(s.value, ast.Call) for s in p.body)
-            ok, why = body_ok, "iterated for validation only" if body_ok else "iterated by a loop that builds something from the listing order"
-        elif isinstance(p, ast.comprehension):
+            return True, "collected"
+        if isinstance(p, ast.For) and p.iter is n:
+            tv = {x.id for x in ast.walk(p.target) if isinstance(x, ast.Name)}
+            v = loop_is_setlike(p, tv)
+            return v, {True: "iterated for validation / keyed stores only", False: "iterated by a loop that builds something from the listing order",
+                       None: f"iterated by a loop this rule cannot classify: `{short(p, 60)}`"}[v]
+        if isinstance(p, ast.comprehension):
             comp = parents[id(p)][0]
             if isinstance(comp, (ast.DictComp, ast.SetComp)):
-                ok, why = True, "becomes dictionary keys / a set"
-            else:
-                ok, why = False, "flows into an ordered sequence"
-        elif isinstance(p, ast.Call) and isinstance(p.func, ast.Name) and p.func.id in ("set", "frozenset", "len", "sorted"):
-            ok, why = True, f"{p.func.id}()"
-        else:
-            why = f"used as `{short(p)}`"
+                return True, "becomes dictionary keys / a set"
+            if isinstance(comp, ast.GeneratorExp) and depth < 3:
+                return classify_bond_use(comp, m, depth + 1)
+            return False, "flows into an ordered sequence"
+        if isinstance(p, ast.Call) and isinstance(p.func, ast.Name) and p.func.id in ("set", "frozenset", "len", "sorted", "any", "all", "min", "max", "bool"):
+            return True, f"{p.func.id}()"
+        if isinstance(p, ast.Call) and isinstance(p.func, ast.Name) and p.func.id in ("list", "tuple", "enumerate", "Counter"):
+            return False, f"{p.func.id}() keeps the written order / multiplicity"
+        if isinstance(p, ast.Call) and norm(p.func).split(".")[-1] in ("from_iterable", "chain", "fromkeys", "update", "add_edges_from") and depth < 3:
+            if norm(p.func).split(".")[-1] in ("fromkeys", "update", "add_edges_from"):
+                return True, "becomes dictionary keys / edges of a simple graph"
+            return classify_bond_use(p, m, depth + 1)
+        if isinstance(p, ast.Starred) and depth < 3:
+            return classify_bond_use(p, m, depth + 1)
+        if isinstance(p, ast.Subscript) and p.value is n:
+            return False, f"read by position: `{short(p)}`"
+        if isinstance(p, (ast.If, ast.While, ast.UnaryOp, ast.BoolOp)):
+            return True, "emptiness test"
+        return None, f"used as `{short(p)}`"
+    for n, m in uses[bond_field]:
+        p, _ = parents[id(n)]
+        ok, why = classify_bond_use(n, m)
+        if ok is None:
+            unclassified.append((m, p, why))
+            continue
         res.inst(m.fq, f"self.{bond_field} in `{short(p, 60)}`", "ok" if ok else "fail", detail=why)
         if not ok:
             res.fail(Finding("R-FLOW-PARSE", m.module.rel, m.qualname, norm(p), f"the order or multiplicity in which bonds were written reaches the graph: {why}", line=n.lineno))
+    if unclassified and not res.findings:
+        m, p, why = unclassified[0]
+        raise AnalysisError(f"R-FLOW-PARSE: in {m.qualname} the bond list is {why}; this rule cannot tell whether that is order-sensitive")
     # ---- attributes: setdefault(index) + keyed store with duplicate check; read via .items() loop doing keyed update
     for n, m in uses[attr_field]:
         p, _ = parents[id(n)]
@@ -354,8 +407,12 @@ def r_flow_parse(ctx) -> RuleResult:
                 why = "items() not consumed by a merge loop"
         elif isinstance(p, ast.Subscript):
             ok, why = True, "keyed by atom index"
+        elif isinstance(p, ast.Compare) or (isinstance(p, ast.Call) and isinstance(p.func, ast.Name) and p.func.id in ("len", "bool", "sorted", "set", "frozenset")):
+            ok, why = True, "membership / size"
+        elif isinstance(p, (ast.For, ast.comprehension)) and p.iter is n:
+            ok, why = True, "keys visited (a dictionary keyed by atom index)"
         else:
-            why = f"used as `{short(p)}`"
+            raise AnalysisError(f"R-FLOW-PARSE: in {m.qualname} the attribute table is used as `{short(p)}`; this rule cannot tell whether that is order-sensitive")
         res.inst(m.fq, f"self.{attr_field} in `{short(p, 60)}`", "ok" if ok else "fail", detail=why)
         if not ok:
             res.fail(Finding("R-FLOW-PARSE", m.module.rel, m.qualname, norm(p), f"the order / splitting of attribute blocks reaches the graph: {why}", line=n.lineno))
